@@ -5,7 +5,7 @@
 # Appends the outcome to <seeded dir>/confirm.txt. CONFIRM_FEATURES='--features x' is passed to the demo runs.
 d="$(realpath "$1")"; shift
 crates="$*"
-W=/tmp/confirm
+W=${CONFIRM_W:-/tmp/confirm}
 [ -d $W ] || git -C /repo worktree add -q --detach $W HEAD
 cd $W && git checkout -q --detach "$(git -C /repo rev-parse HEAD)" && git checkout -- . && git clean -fdq -e target
 export CARGO_TARGET_DIR=$W/target CARGO_NET_OFFLINE=true
